@@ -30,8 +30,10 @@ ENCODED = [watching.infinite_watch, watching.continuous_watch, watching.watch_ob
 META = {
     'bounds': 'H1: one resource/namespace, one object, <=3 changes at symbolic gaps, <=3 connections with a symbolic fault each (EOF, '
               'connection error, timeout, ERROR 410, 429 on connect, unknown ERROR, BOOKMARK then EOF) after a symbolic number of '
-              'delivered events, optional compaction (410 for an old version), one pause/resume window at symbolic instants. '
-              'H2: 2 resources x 2 namespaces (+cluster-wide), <=3 insight revisions with symbolic membership, peering on/off.',
+              'delivered events, optional compaction (410 for an old version), one pause/resume window at symbolic instants; gaps and pause instants <= 30 s; '
+              'the inactivity timeout is concrete per cell: 10000 s (never fires) or 2 s with gaps <= 5 s (fires between changes). '
+              'H2: 2 resources x 2 namespaces (+cluster-wide), <=3 insight revisions with symbolic membership, peering on/off. '
+              'H4 (orchestrator): 3 racing revisions at symbolic instants, watchers needing a symbolic time <= 12 s to stop.',
     'outside': 'aiohttp chunking/iter_jsonlines and the real HTTP stack (api.stream is rebound), more than one object per kind, '
                'discovery of resources/namespaces by observation.py',
     'stubs': ['api.get/api.stream -> fake API over an ordered change log', 'queueing.watcher, peering.keepalive -> recording coroutines (H2)'],
@@ -196,16 +198,23 @@ def h_watch(g0: int, g1: int, g2: int, f0: int, f1: int, f2: int, a0: int, a1: i
     vkopf.begin_path()
     c = vkopf.cell()
     f0, f1, a0, a1 = vkopf.pin('f0', f0), vkopf.pin('f1', f1), vkopf.pin('a0', a0), vkopf.pin('a1', a1)
+    gaps = [g0, g1, g2][:c.get('changes', 2)]
     if c.get('inactivity') is not None:
         inactivity = c['inactivity']        # (cells without the inactivity timer as a symbolic dimension)
+        if any(g > c.get('gap_max', 30) for g in gaps):
+            return True                     # every further inactivity period inside a gap would be another case split
+    elif inactivity < c.get('inactivity_min', 8) or any(g > 2 * inactivity for g in gaps):
+        return True                         # at most two inactivity periods per gap and in the quiescence tail
     nf = c.get('faults', 2)
     faults = [None if f == 7 else f for f in [f0, f1, f2][:nf]]
     if not c.get('pause', False):
         has_pause = False
+    elif has_pause and (pause_at > c.get('gap_max', 30) or pause_len > c.get('gap_max', 30)):
+        return True
     if compact_all and not c.get('compaction', False):
         compact_all = False
     try:
-        seen, info = run_watch([g0, g1, g2][:c.get('changes', 2)], faults, [a0, a1, a2][:nf], compact_all,
+        seen, info = run_watch(gaps, faults, [a0, a1, a2][:nf], compact_all,
                                pause_at if has_pause else None, pause_len, inactivity=inactivity)
     except (Deadlock, Diverged, Livelock):
         return vkopf.verdict(False)
@@ -220,13 +229,16 @@ def h_watch(g0: int, g1: int, g2: int, f0: int, f1: int, f2: int, a0: int, a1: i
     # every watch request resumes from the latest version seen (listed or yielded), never from one that skips changes
     known = None
     reqs = info['requests']
-    nlists = 0
+    nlists = nwatches = 0
     for kind, a, *rest in [(e[0], e[1], *e[2:]) for e in info['trace']]:
         if kind == 'list':
             nlists += 1
             if nlists > 1:
                 vkopf.witness('relisted')
         elif kind == 'watch':
+            nwatches += 1
+            if nwatches > 1:
+                vkopf.witness('resumed')         # a watch request after the first one: continuity is at stake
             if a != known:
                 ok = False
         else:
@@ -470,6 +482,9 @@ def h_orchestrator(g1: int, g2: int, linger: int, r2a: bool, r2b: bool, r2c: boo
     """
     vkopf.begin_path()
     na, nb, nc = vkopf.pin('na', na), vkopf.pin('nb', nb), vkopf.pin('nc', nc)
+    r2a, r2b, r2c = vkopf.pin('r2a', r2a), vkopf.pin('r2b', r2b), vkopf.pin('r2c', r2c)
+    if linger > vkopf.cell().get('linger_max', 12):
+        return True                    # aiotasks.stop() polls every 10 s: each further period is another case split
 
     def nsset(m):      # a non-empty subset of {a, b, c} (empty sets: known finding F10)
         return [x for i, x in enumerate(('a', 'b', 'c')) if m & (1 << i)]
@@ -488,30 +503,41 @@ def h_orchestrator(g1: int, g2: int, linger: int, r2a: bool, r2b: bool, r2c: boo
 def obligations():
     none = 7
     obs = []
-    # quick: one fault kind per cell at a pinned position, symbolic change instants; the inactivity timer is a symbolic
-    # dimension only in the fault-free cell (every extra unbounded timer multiplies the orderings)
+    # quick: one fault kind per cell at a pinned position, symbolic change instants (gaps <= 30 s). The inactivity timer is
+    # concrete per cell (10000 s = never fires within the horizon; 2 s with gaps <= 5 s = fires between changes): every
+    # further period of a periodic timer inside a symbolic gap is another case split, so it cannot stay unbounded
     for (f0, a0, f1, a1) in ((0, 1, none, 0), (1, 0, none, 0), (2, 1, 0, 1), (3, 1, none, 0), (4, 0, none, 0), (5, 1, none, 0), (6, 1, 3, 0)):
         obs.append(Ob('h_watch', {'faults': 2, 'changes': 2, 'inactivity': 10000, 'pin': {'f0': f0, 'a0': a0, 'f1': f1, 'a1': a1}},
                       tiers=('quick',), timeout=900, path_timeout=300))
-    obs.append(Ob('h_watch', {'faults': 1, 'changes': 2, 'pin': {'f0': none, 'a0': 0}}, tiers=('quick',), timeout=900, path_timeout=300))
+    obs.append(Ob('h_watch', {'faults': 1, 'changes': 2, 'inactivity': 2, 'gap_max': 5, 'pin': {'f0': none, 'a0': 0}}, tiers=('quick',),
+                  timeout=900, path_timeout=300))
     obs.append(Ob('h_watch', {'faults': 1, 'changes': 2, 'pause': True, 'inactivity': 10000, 'pin': {'f0': none, 'a0': 0}}, tiers=('quick',),
                   timeout=900, path_timeout=300))
     obs.append(Ob('h_watch', {'faults': 1, 'changes': 2, 'pause': True, 'inactivity': 10000, 'pin': {'f0': 3, 'a0': 1}}, tiers=('quick',),
                   timeout=900, path_timeout=300))
     obs.append(Ob('h_watch', {'faults': 2, 'changes': 2, 'pause': True, 'inactivity': 10000}, tiers=('quick', 'thorough'), timeout=600,
-                  path_timeout=300, twins=['raised', 'relisted', 'paused'], main=False))
+                  path_timeout=300, twins=['raised', 'relisted', 'paused', 'resumed'], main=False))
     F = list(range(8))
     obs += split(Ob('h_watch', {'faults': 2, 'changes': 2, 'inactivity': 10000}, timeout=1800, path_timeout=300, tiers=('thorough',)),
-                 f0=F, f1=F, a0=[0, 1, 2])
-    obs += split(Ob('h_watch', {'faults': 2, 'changes': 3, 'compaction': True, 'inactivity': 10000}, timeout=3000, path_timeout=300,
-                    tiers=('thorough',)), f0=F, f1=[none, 0, 3], a0=[0, 1, 2])
-    obs += split(Ob('h_watch', {'faults': 1, 'changes': 2, 'pause': True, 'inactivity': 10000}, timeout=3000, path_timeout=300,
+                 f0=F, f1=[none, 0, 3, 5], a0=[0, 1], a1=[0, 1])
+    obs += split(Ob('h_watch', {'faults': 1, 'changes': 3, 'compaction': True, 'inactivity': 10000}, timeout=1800, path_timeout=300,
                     tiers=('thorough',)), f0=F, a0=[0, 1, 2])
-    obs += split(Ob('h_watch', {'faults': 1, 'changes': 2}, timeout=3000, path_timeout=300, tiers=('thorough',)), f0=[none, 0, 3], a0=[0, 1])
+    obs += split(Ob('h_watch', {'faults': 1, 'changes': 2, 'pause': True, 'inactivity': 10000}, timeout=1800, path_timeout=300,
+                    tiers=('thorough',)), f0=F, a0=[0, 1])
+    obs += split(Ob('h_watch', {'faults': 1, 'changes': 2, 'inactivity': 2, 'gap_max': 5}, timeout=1800, path_timeout=300, tiers=('thorough',)),
+                 f0=[none, 0, 3], a0=[0, 1])
     obs += split(Ob('h_revise', {}, timeout=900, twins=['crd_modified']), by_category=[False, True])
     obs += split(Ob('h_adjust', {}, timeout=900, twins=['changed']), n=[1, 2])
     obs += split(Ob('h_adjust', {}, timeout=3400, tiers=('thorough',)), n=[3])
-    obs += split(Ob('h_orchestrator', {}, timeout=900, path_timeout=300, twins=['revision_during_adjustment']), na=[3], nb=[2, 1], nc=[4, 6])
-    obs += split(Ob('h_orchestrator', {}, timeout=3000, path_timeout=300, tiers=('thorough',)), na=[1, 3, 7], nb=[1, 2, 5], nc=[2, 4, 6])
+    # the racing revisions: namespace sets and the cluster-scoped resource are pinned per cell, the instants, the time a watcher
+    # needs to stop (<= 12 s: aiotasks.stop() polls every 10 s) and the order of simultaneous wake-ups are symbolic
+    for (na, nb, nc, r2) in ((3, 2, 4, (True, False, True)), (3, 1, 6, (False, True, False)), (3, 2, 6, (True, True, False)),
+                             (3, 1, 4, (False, False, True))):
+        obs.append(Ob('h_orchestrator', {'pin': {'na': na, 'nb': nb, 'nc': nc, 'r2a': r2[0], 'r2b': r2[1], 'r2c': r2[2]}}, tiers=('quick',),
+                      timeout=900, path_timeout=300))
+    obs.append(Ob('h_orchestrator', {'pin': {'na': 3, 'nb': 2, 'nc': 4}}, tiers=('quick', 'thorough'), timeout=300, path_timeout=300,
+                  twins=['revision_during_adjustment'], main=False))
+    obs += split(Ob('h_orchestrator', {}, timeout=3000, path_timeout=300, tiers=('thorough',)), na=[1, 3, 7], nb=[1, 2, 5], nc=[4, 6],
+                 r2a=[False, True], r2c=[False, True])
     obs.append(Ob('h_adjust', {'exclude_known': False, 'only_f10': True, 'pin': {'n': 2}}, expect='counterexample', finding='F10', timeout=600))
     return obs
